@@ -105,4 +105,3 @@ package app
 //@   modifies *
 //@   panics
 //@   top-ensures r.r == r.f
-
